@@ -55,7 +55,7 @@ func TestC12Shutdown(t *testing.T) {
 		cfg := baseConfig()
 		h := newH(rt, "C12", asVolatileSession(rt, sim.Options{Config: cfg}))
 		state := rapid.SampledFrom([]string{"never-connected", "dialing", "awaiting-connack", "resending", "online-idle", "online-holding",
-			"writers-parked", "offline-after-failed-connect", "reconnect-pending", "already-closed", "remote-closed-unnoticed", "next-write-fails"}).Draw(rt, "state")
+			"writers-parked", "offline-after-failed-connect", "reconnect-pending", "already-closed", "remote-closed-unnoticed", "next-write-fails", "connecting-behind-a-slow-save"}).Draw(rt, "state")
 		h.Act("state %s", state)
 		h.label("state:" + state)
 		nontrivial := state != "online-idle" && state != "never-connected"
@@ -80,6 +80,7 @@ func TestC12Shutdown(t *testing.T) {
 		}
 
 		deaf := false
+		slowSave := false
 		switch state {
 		case "never-connected":
 		case "dialing":
@@ -137,6 +138,28 @@ func TestC12Shutdown(t *testing.T) {
 					cur.Break(rapid.Bool().Draw(rt, "graceful"))
 				}
 				h.settleInbound()
+			}
+		case "connecting-behind-a-slow-save":
+			// A publisher sits inside a slow Persistence.Save and holds its
+			// level's sequence lock; the connection is lost and the read
+			// routine reconnects: dial and handshake pass, then connect
+			// waits for that lock. The shutdown arrives now. (It may wait for
+			// the Save: judged after the Save completed.)
+			h.App.Step()
+			h.SettleReader("connect")
+			if cur := h.Current(); cur != nil && cur.Accepted() {
+				h.Store.ParkNext('S')
+				request(rapid.SampledFrom([]int{3, 4}).Draw(rt, "slowSaveLevel"))
+				if h.Store.Parked() > 0 {
+					slowSave = true
+					cur.Break(false)
+					for i := 0; i < 3; i++ {
+						h.App.Step()
+						h.PollQuiet(2*time.Millisecond, func() bool { return false })
+					}
+				} else {
+					h.Store.ClearParks()
+				}
 			}
 		case "offline-after-failed-connect":
 			h.ScriptDial(sim.DialOutcome{Kind: sim.DialErr})
@@ -232,6 +255,9 @@ func TestC12Shutdown(t *testing.T) {
 				mayWait = true
 			}
 		}
+		if slowSave {
+			mayWait = true
+		}
 		if !mayWait {
 			for _, cl := range closers {
 				h.MustPoll(fmt.Sprintf("%s returning while writers and dials are still parked", cl.kind), func() bool { return h.IsDone(cl.call) })
@@ -242,6 +268,12 @@ func TestC12Shutdown(t *testing.T) {
 			}
 		}
 		for h.ReleaseDial() {
+		}
+		if slowSave {
+			h.Act("the slow Save completes")
+			for h.Store.Release() {
+			}
+			h.Store.ClearParks()
 		}
 		for _, cl := range closers {
 			h.MustPoll(fmt.Sprintf("%s returning", cl.kind), func() bool { return h.IsDone(cl.call) })
